@@ -3,6 +3,8 @@ use crate::cases::Case;
 use std::cell::RefCell;
 
 thread_local! {
+    /// the request line being evaluated (what the watchdog reports if the real code does not return)
+    pub static CURRENT_LINE: RefCell<String> = RefCell::new(String::new());
     /// the property whose oracle verdicts are reported (a solve request evaluates the oracles of all solver properties)
     pub static CURRENT_PROP: RefCell<String> = RefCell::new(String::new());
 }
@@ -11,6 +13,7 @@ thread_local! {
 /// evaluate one request; a panic of the implementation is an answer (`panic:<message>`) and, for
 /// every request kind of this harness, a failure of the direct oracle.
 pub fn eval_line(req: &str) -> Case {
+    CURRENT_LINE.with(|l| *l.borrow_mut() = req.to_string());
     let r = std::panic::catch_unwind(|| eval_inner(req));
     match r {
         Ok(c) => c,
